@@ -491,6 +491,54 @@ def _trace(h, port, idx, depth=0):
     return "?"
 
 
+# =====================================================================================================
+# additional oracle: the reference HUGR interpreter (harness/hugr_interp.py, notes/INTERP.md)
+# =====================================================================================================
+def interp_handle(src):
+    """a second lowering of the probe, kept alive for the interpreter: -> (module, hugr) | None"""
+    import feed
+    try:
+        m = feed.load(src)
+    except BaseException:  # noqa: BLE001
+        return None
+    try:
+        return (m, feed.lower(m.f).hugr)
+    except BaseException:  # noqa: BLE001
+        feed.unload(m)
+        return None
+
+
+def interp_value(hi, hugr, form, vals, order):
+    """what the lowered probe computes on `vals` according to the interpreter, in the canonical value form of this check:
+    ('int', v) | ('nat', v) | ('bool', b) | ('float', x) | ('tup', a, b) | 'panic' | ('unsupported', op) | ('stuck', why)"""
+    rt = result_type(form)
+    try:
+        r = hi.run(hugr, "f", list(vals), order=order, fuel=200_000)
+    except hi.Unsupported as e:
+        return ("unsupported", e.name)
+    except (hi.OutOfFuel, hi.InterpError) as e:
+        return ("stuck", f"{type(e).__name__}: {e}")
+    if r.status != "value":
+        return "panic"
+
+    def cv(t, v):
+        if t == "int":
+            return ("int", val_of("int", v))
+        if t == "nat":
+            return ("nat", v)
+        if t == "float":
+            return ("float", v)
+        if t == "bool":
+            return ("bool", v.v if isinstance(v, hi.OBool) else v.tag == 1)
+        raise AssertionError(t)
+    try:
+        if isinstance(rt, tuple):
+            return ("tup", cv(rt[1], r.raw[0]), cv(rt[1], r.raw[1]))
+        return cv(rt, r.raw[0])
+    except (AttributeError, IndexError, TypeError) as e:
+        return ("stuck", f"unexpected result shape {r.raw!r}: {e}")
+
+
 def arith_ops(funcs, fname="f"):
     return [nm for nm, _s in funcs.get(fname, [])]
 
@@ -694,7 +742,11 @@ def classify(form, vals, real, orc):
     if ty == "float" and dn in ("__floordiv__", "__mod__", "__divmod__"):
         a, b = float(vals[0]), float(vals[1])
         try:
-            fl = float(math.floor(a / b))
+            q = a / b
+            # IEEE floor: the quotient may have been rounded all the way to +-inf (1e308 % 0.1), floor(inf) = inf and the
+            # remainder a - inf * b = -+inf — the same mechanism, only seen by the interpreter oracle (the float model is
+            # undefined there)
+            fl = q if (math.isinf(q) or math.isnan(q)) else float(math.floor(q))
             exp = {"__floordiv__": ("float", fl), "__mod__": ("float", a - fl * b),
                    "__divmod__": ("tup", ("float", fl), ("float", a - fl * b))}[dn]
         except (OverflowError, ZeroDivisionError, ValueError):
@@ -836,6 +888,8 @@ def tie(ctx):
         extra.setdefault(tuple(c["form"]), []).append(tuple(c["operands"]))
     reqs, meta = [], []
     real_reqs = []
+    import hugr_interp as hi
+    handles, n_seen = [], 0
     for form in forms:
         src = form_src(form)
         st, funcs = lower_probe(src)
@@ -871,6 +925,10 @@ def tie(ctx):
             ctx.broke(f"T-obj: form `{fk}`: real compiler emits {[nm for nm, _s in fops]}, table dispatch predicts {exp[0]}")
             _probe_violation(ctx, f"form {fk}", f"`{fk}` lowers to {[nm for nm, _s in fops]} but the table dispatch predicts {exp[0]}",
                              src, {"got": [nm for nm, _s in fops], "want": exp[0]})
+        # interpreter oracle: the whole lowered probe (every FuncDefn it calls, control flow included) is interpreted
+        ih = interp_handle(src)
+        if ih is not None:
+            handles.append(ih[0])
         # independent REAL value path: exactly one integer op in the probe function, operands wired from the parameters
         single = None
         ints = [(nm, s) for nm, s in fops if nm.startswith("arithmetic.int.")]
@@ -885,13 +943,29 @@ def tie(ctx):
             if single is not None:
                 rr = "op " + single[0] + " " + " ".join(us[i] for i in single[1])
             real_reqs.append(rr)
-            meta.append((form, vals, fin))
+            ires = None
+            if ih is not None:
+                ires = interp_value(hi, ih[1], form, vals, "default")
+                n_seen += 1
+                if not ctx.quick or n_seen % 4 == 0:
+                    adv = interp_value(hi, ih[1], form, vals, "adversarial")
+                    if adv != ires and not same(adv, ires):
+                        ctx.violation(f"order:{fk} {' '.join(repr(v) for v in vals)}",
+                                      f"`{fk}` on operands {vals}: the lowered probe computes {ires} under the default schedule and "
+                                      f"{adv} under the adversarial one (a side effect is missing an order edge)",
+                                      {"form": list(form), "operands": [repr(v) for v in vals], "default": repr(ires),
+                                       "adversarial": repr(adv), "source": src})
+            meta.append((form, vals, fin, ires))
+    import feed
+    for m in handles:
+        feed.unload(m)
     lines = reqs + [r for r in real_reqs if r is not None]
     replies = ctx.driver(DRIVER, lines)
     model_rep = replies[:len(reqs)]
     it = iter(replies[len(reqs):])
     n_real = 0
-    for (form, vals, fin), mrep, rr in zip(meta, model_rep, real_reqs):
+    n_interp, interp_unsupported, n_interp_checked = 0, {}, 0
+    for (form, vals, fin, ires), mrep, rr in zip(meta, model_rep, real_reqs):
         fk = _fkey(form)
         case = {"form": fk, "operands": [repr(v) for v in vals]}
         rt = result_type(form)
@@ -924,6 +998,26 @@ def tie(ctx):
         ctx.count(case, nontrivial=_nontrivial(vals), kind=f"val:{form[0]}:{'indep' if independent else 'model'}:{'guarded' if orc is None else 'checked'}")
         if independent and not same(real, model):
             ctx.broke(f"correspondence NumEval(Gen table) vs emitted op for `{fk}` on {vals}: real={real} model={model}")
+        # ---- interpreter oracle (third, independent evaluation of the SAME lowered probe)
+        if ires is not None:
+            if isinstance(ires, tuple) and ires[0] == "unsupported":
+                interp_unsupported[ires[1]] = interp_unsupported.get(ires[1], 0) + 1
+            elif isinstance(ires, tuple) and ires[0] == "stuck":
+                ctx.broke(f"hugr_interp cannot run the lowered probe of `{fk}` on {vals}: {ires[1]}")
+            else:
+                n_interp += 1
+                model_usable = real != "undefined" and not (isinstance(real, tuple) and real and real[0] == "stuck")
+                if model_usable and not same(ires, real):
+                    ctx.broke(f"hugr_interp vs {'IntSem (emitted op)' if independent else 'NumEval (table)'} for `{fk}` on {vals}: "
+                              f"interpreter={ires} model={real}")
+                if orc is not None:
+                    n_interp_checked += 1
+                    if not same(ires, orc):
+                        key = classify(form, vals, ires, orc) or f"input:{fk} {' '.join(repr(v) for v in vals)}"
+                        ctx.violation(key, f"`{fk}` on operands {vals}: the lowered probe, run by the reference HUGR interpreter, computes "
+                                      f"{ires}, Python gives {orc}",
+                                      {"form": list(form), "operands": [repr(v) for v in vals], "real": repr(ires), "oracle": repr(orc),
+                                       "model": repr(model), "source": form_src(form), "oracle_path": "hugr_interp"})
         if isinstance(model, tuple) and model and model[0] == "stuck":
             ctx.broke(f"model is stuck on accepted form `{fk}` {vals}: {model[1]}")
             continue
@@ -935,6 +1029,9 @@ def tie(ctx):
                           {"form": list(form), "operands": [repr(v) for v in vals], "real": repr(real), "oracle": repr(orc),
                            "model": repr(model), "source": form_src(form), "independent_real_path": independent})
     ctx.extra["value_cases_with_independent_real_path"] = n_real
+    ctx.extra["interpreter_oracle"] = {"cases_interpreted": n_interp, "compared_with_python_under_guard": n_interp_checked,
+                                       "skipped_unsupported_ops": interp_unsupported}
+    ctx.bump("interp-oracle-cases", n_interp)
     ctx.extra["unexplained_violation_keys"] = [v["key"] + " :: " + v["what"] for v in ctx.violations][:60]
     ctx.extra["forms"] = len(forms)
     if not ctx.quick and not getattr(ctx, "_emu_done", False):
